@@ -55,6 +55,17 @@ type ecase struct {
 	Addrs    []addrCase `json:"addrs"`
 	Seg      int        `json:"seg"` // 1-based index of the segment the mapping belongs to
 	Table    []sym      `json:"table"`
+	// kernel images (GenKernel): link addresses are relative to kernelHigh, runtime addresses to the relocation symbol
+	Stext     uint64 `json:"stext"`
+	Text      uint64 `json:"text"`
+	TextSec   uint64 `json:"textsec"`
+	Reloc     string `json:"reloc"`
+	Named     bool   `json:"named"`
+	Mode      string `json:"mode"`
+	Slide     uint64 `json:"slide"`
+	OffMode   string `json:"offmode"`
+	RelocAddr uint64 `json:"relocaddr"`
+	MapSize   uint64 `json:"mapsize"`
 	Queries  []query    `json:"queries"`
 }
 
@@ -202,6 +213,153 @@ func elfCase(raw json.RawMessage, c *ecase, idx int) {
 	}
 	if !found {
 		run.Violate("elf", sigOf(c, "owning-segment-not-a-candidate"), fmt.Sprintf("ProgramHeadersForMapping(off=%#x, size=%#x) does not offer the segment the mapping belongs to (%d)", c.MapOff, c.MapLimit-c.MapStart, c.Seg), raw, nil)
+	}
+}
+
+const kernelHigh = 0xffffffff80000000
+
+// writeKernelELF writes an image with program headers, a .text section inside the executable segment and a symbol
+// table naming _text (start of the text segment), _stext and a few ordinary functions; all link addresses are
+// shifted into the kernel half of the address space.
+func writeKernelELF(path string, c *ecase) error {
+	typ := elf.ET_EXEC
+	if c.Type == "DYN" {
+		typ = elf.ET_DYN
+	}
+	var end uint64 = 64 + 56*uint64(len(c.Layout))
+	for _, s := range c.Layout {
+		if s.Off+s.Filesz > end {
+			end = s.Off + s.Filesz
+		}
+	}
+	shstr := []byte("\x00.text\x00.symtab\x00.strtab\x00.shstrtab\x00")
+	names := map[string]uint32{".text": 1, ".symtab": 7, ".strtab": 15, ".shstrtab": 23}
+	strtab := []byte{0}
+	var syms bytes.Buffer
+	binary.Write(&syms, binary.LittleEndian, elf.Sym64{})
+	addSym := func(name string, value uint64) {
+		off := uint32(len(strtab))
+		strtab = append(strtab, append([]byte(name), 0)...)
+		binary.Write(&syms, binary.LittleEndian, elf.Sym64{Name: off, Info: byte(elf.STB_GLOBAL)<<4 | byte(elf.STT_FUNC), Shndx: 1, Value: value, Size: 8})
+	}
+	// ordinary symbols before and after the relocation symbols, so that position in the table decides nothing
+	addSym("startup_64", c.Text+kernelHigh+8)
+	addSym("_text", c.Text+kernelHigh)
+	addSym("_stext", c.Stext+kernelHigh)
+	addSym("_etext", c.Text+kernelHigh+12000)
+	addSym("start_kernel", c.Stext+kernelHigh+64)
+	var exec seg
+	for _, s := range c.Layout {
+		if s.X {
+			exec = s
+		}
+	}
+	shstrOff := end
+	strOff := shstrOff + uint64(len(shstr))
+	symOff := (strOff + uint64(len(strtab)) + 7) &^ 7
+	shOff := (symOff + uint64(syms.Len()) + 7) &^ 7
+	secs := []elf.Section64{
+		{},
+		{Name: names[".text"], Type: uint32(elf.SHT_PROGBITS), Flags: uint64(elf.SHF_ALLOC | elf.SHF_EXECINSTR), Addr: c.TextSec + kernelHigh, Off: exec.Off + (c.TextSec - exec.Vaddr), Size: exec.Vaddr + exec.Filesz - c.TextSec, Addralign: 8},
+		{Name: names[".symtab"], Type: uint32(elf.SHT_SYMTAB), Off: symOff, Size: uint64(syms.Len()), Link: 3, Info: 1, Addralign: 8, Entsize: 24},
+		{Name: names[".strtab"], Type: uint32(elf.SHT_STRTAB), Off: strOff, Size: uint64(len(strtab)), Addralign: 1},
+		{Name: names[".shstrtab"], Type: uint32(elf.SHT_STRTAB), Off: shstrOff, Size: uint64(len(shstr)), Addralign: 1},
+	}
+	var b bytes.Buffer
+	h := elf.Header64{Type: uint16(typ), Machine: uint16(elf.EM_X86_64), Version: 1, Entry: c.Text + kernelHigh, Phoff: 64, Shoff: shOff, Ehsize: 64, Phentsize: 56, Phnum: uint16(len(c.Layout)), Shentsize: 64, Shnum: uint16(len(secs)), Shstrndx: 4}
+	copy(h.Ident[:], []byte{0x7f, 'E', 'L', 'F', byte(elf.ELFCLASS64), byte(elf.ELFDATA2LSB), 1})
+	binary.Write(&b, binary.LittleEndian, h)
+	for _, s := range c.Layout {
+		fl := uint32(elf.PF_R)
+		if s.X {
+			fl |= uint32(elf.PF_X)
+		} else {
+			fl |= uint32(elf.PF_W)
+		}
+		binary.Write(&b, binary.LittleEndian, elf.Prog64{Type: uint32(elf.PT_LOAD), Flags: fl, Off: s.Off, Vaddr: s.Vaddr + kernelHigh, Paddr: s.Vaddr, Filesz: s.Filesz, Memsz: s.Memsz, Align: 4096})
+	}
+	out := b.Bytes()
+	out = append(out, make([]byte, shOff-uint64(len(out)))...)
+	copy(out[shstrOff:], shstr)
+	copy(out[strOff:], strtab)
+	copy(out[symOff:], syms.Bytes())
+	var sb bytes.Buffer
+	binary.Write(&sb, binary.LittleEndian, secs)
+	out = append(out, sb.Bytes()...)
+	return os.WriteFile(path, out, 0o755)
+}
+
+// kernelCase: a kernel image run at link address + slide (or remapped into page 0), its perf-style mapping starting at
+// the relocation symbol; every address must come back as its link-time address, through the nm-backed ObjFile and
+// through the addr2line-backed one (same mapping arithmetic, different constructors).
+func kernelCase(raw json.RawMessage, c *ecase, idx int, nmDir string) {
+	name := "vmlinux"
+	if !c.Named {
+		name = "kernel.img"
+	}
+	kdir := filepath.Join(dir, fmt.Sprintf("k%d", idx))
+	os.MkdirAll(kdir, 0o755)
+	defer os.RemoveAll(kdir)
+	path := filepath.Join(kdir, name)
+	if err := writeKernelELF(path, c); err != nil {
+		run.Infra(err.Error())
+		return
+	}
+	// self-check of the writer: the standard library must see the symbol table and the .text section
+	if ef, err := elf.Open(path); err != nil {
+		run.Infra("kernel ELF writer: " + err.Error())
+		return
+	} else {
+		ss, err := ef.Symbols()
+		th := elfexec.FindTextProgHeader(ef)
+		ef.Close()
+		if err != nil || len(ss) != 5 || th == nil {
+			run.Infra(fmt.Sprintf("kernel ELF writer: symbols %d (%v), text header %v", len(ss), err, th))
+			return
+		}
+	}
+	var start uint64
+	switch c.Mode {
+	case "kaslr":
+		start = c.RelocAddr + kernelHigh + c.Slide
+	case "remap0":
+		start = (c.RelocAddr + kernelHigh) % 4096
+	}
+	limit := start + c.MapSize
+	var offset uint64
+	switch c.OffMode {
+	case "start":
+		offset = start
+	case "ppc64":
+		offset = 0xc000000000000000
+	}
+	for _, tools := range []string{"nm", "addr2line"} {
+		bu := &binutils.Binutils{}
+		if tools == "nm" {
+			bu.SetTools("nm:" + nmDir)
+			bu.SetFastSymbolization(true)
+		} else {
+			bu.SetTools("addr2line:" + nmDir + ",nm:" + nmDir)
+		}
+		f, err := bu.Open(path, start, limit, offset, c.Reloc)
+		if err != nil {
+			run.Violate("kernel", sigOf(c, "kernel-open-error:"+c.Mode), fmt.Sprintf("%s: Open(start=%#x limit=%#x offset=%#x reloc=%q): %v", tools, start, limit, offset, c.Reloc, err), raw, nil)
+			continue
+		}
+		for _, a := range c.Addrs {
+			x := start + a.X
+			got, err := f.ObjAddr(x)
+			run.Count(fmt.Sprintf("kernel|%s|%s|%d|%d|%s|%s|%d|%s|%d", tools, c.Type, len(c.Layout), c.Stext-c.Text, c.Reloc, c.Mode, c.Slide, c.OffMode, a.X))
+			if err != nil {
+				run.Violate("kernel", sigOf(c, "kernel-error:"+c.Mode), fmt.Sprintf("%s: ObjAddr(%#x) failed: %v", tools, x, err), raw, nil)
+				break
+			}
+			if got != a.Want+kernelHigh {
+				run.Violate("kernel", sigOf(c, "kernel-wrong-address:"+c.Mode+":"+tools), fmt.Sprintf("%s: mapping [%#x, %#x) offset %#x named after %q (_stext at %#x, text segment at %#x): ObjAddr(%#x) = %#x, the image has link address %#x there", tools, start, limit, offset, c.Reloc, c.Stext+kernelHigh, c.Text+kernelHigh, x, got, a.Want+kernelHigh), raw, nil)
+				break
+			}
+		}
+		f.Close()
 	}
 }
 
@@ -385,6 +543,8 @@ func main() {
 			}()
 			if c.Kind == "elf" {
 				elfCase(raw, &c, i)
+			} else if c.Kind == "kernel" {
+				kernelCase(raw, &c, i, nmDir)
 			} else {
 				nmCase(raw, &c, i, nmDir)
 				a2lCase(raw, &c, i, nmDir)
@@ -394,5 +554,5 @@ func main() {
 			run.Sample(json.RawMessage(raw))
 		}
 	})
-	run.Finish("cases = ElfLoad.tla: 8 segment layouts (ld-style page-aligned, lld-style segments sharing file pages, bss, executable segment starting mid page after read-only data, huge-page vaddr gap, executable segments with a zero-filled tail of several pages) x {ET_EXEC, ET_DYN with biases 0 / 5 / 77 pages, optionally plus a 47-bit constant} x page-granular splits of the executable mapping x addresses at segment and page edges, each translated through binutils.Open + ObjAddr in ascending and descending order on one ObjFile; symbol tables of 1-2 (thorough 3) symbols with duplicates, zero sizes, code and data x 12 lookup addresses through a fake nm, and through a scripted addr2line whose names are completed from the nm table (PATH emptied so that no llvm-symbolizer is found); non-trivial = distinct (type, layout, mapping, address) / (table, query)")
+	run.Finish("cases = ElfLoad.tla: 8 segment layouts (ld-style page-aligned, lld-style segments sharing file pages, bss, executable segment starting mid page after read-only data, huge-page vaddr gap, executable segments with a zero-filled tail of several pages) x {ET_EXEC, ET_DYN with biases 0 / 5 / 77 pages, optionally plus a 47-bit constant} x page-granular splits of the executable mapping x addresses at segment and page edges, each translated through binutils.Open + ObjAddr in ascending and descending order on one ObjFile; symbol tables of 1-2 (thorough 3) symbols with duplicates, zero sizes, code and data x 12 lookup addresses through a fake nm, and through a scripted addr2line whose names are completed from the nm table (PATH emptied so that no llvm-symbolizer is found); kernel images (GenKernel: 3 layouts x ET_EXEC/ET_DYN x _stext at 0 / 0x198 / 0x1000 / 0x1198 past the text segment x relocation symbol unnamed / _stext / _text x KASLR slides 0 / 64 KiB / 16 MiB with mapping offset 0 / start / ppc64 PAGE_OFFSET, or remapped into page 0) written with a .text section and a symbol table, opened as nm-backed and as addr2line-backed object; non-trivial = distinct (type, layout, mapping, address) / (table, query)")
 }
